@@ -2738,4 +2738,39 @@ theorem D_effective (inp : Inp) (c X : Str) (h : defines inp.userDefines X = tru
     effDefines inp c X = true := by
   simp [effDefines, h, hu]
 
+/-! ## the duplicate-configuration purge -/
+
+theorem dedupByGo_key (key : Str → Nat) : ∀ (cs : List Str) (seen : List Nat) (c : Str), c ∈ cs →
+    key c ∈ seen ∨ ∃ c' ∈ dedupByGo key seen cs, key c' = key c
+  | [], _, _, h => by simp at h
+  | x :: xs, seen, c, h => by
+    simp only [dedupByGo]
+    rcases List.mem_cons.mp h with h | h
+    · subst h
+      split
+      · next hs => exact Or.inl (List.contains_iff_mem.mp hs)
+      · exact Or.inr ⟨c, by simp, rfl⟩
+    · split
+      · exact dedupByGo_key key xs seen c h
+      · rcases dedupByGo_key key xs (key x :: seen) c h with h' | ⟨c', hc', hk⟩
+        · rcases List.mem_cons.mp h' with h' | h'
+          · exact Or.inr ⟨x, by simp, h'.symm⟩
+          · exact Or.inl h'
+        · exact Or.inr ⟨c', List.mem_cons_of_mem _ hc', hk⟩
+
+theorem dedupBy_key (key : Str → Nat) (cs : List Str) (c : Str) (h : c ∈ cs) : ∃ c' ∈ dedupBy key cs, key c' = key c := by
+  rcases dedupByGo_key key cs [] c h with h' | h'
+  · simp at h'
+  · exact h'
+
+theorem dedupByGo_sub (key : Str → Nat) : ∀ (cs : List Str) (seen : List Nat) (c : Str), c ∈ dedupByGo key seen cs → c ∈ cs
+  | [], _, _, h => by simp [dedupByGo] at h
+  | x :: xs, seen, c, h => by
+    simp only [dedupByGo] at h
+    split at h
+    · exact List.mem_cons_of_mem _ (dedupByGo_sub key xs seen c h)
+    · rcases List.mem_cons.mp h with h | h
+      · simp [h]
+      · exact List.mem_cons_of_mem _ (dedupByGo_sub key xs _ c h)
+
 end Cppcheck.Configs
